@@ -116,7 +116,7 @@ def run(tier):
         sc["perf"] = {"strategy": "expand", "data": rng.choice([2, 4, 8]), "max": 400, "mininc": rng.choice([2, 4]), "growth": rng.choice([1.5, 2.0]), "slowsink": rng.choice([100, 300])}
         sc["meta"]["expand"] = 1
         scen.append(sc)
-    seqfam.run_scenarios(res, scen, "TraceDirect", tag="direct", relayout_p=0.3, retype_p=0.3)
+    seqfam.run_scenarios(res, scen, "TraceDirect", tag="direct", relayout_p=0.3, retype_p=0.3, rename_p=0.3)
     seqfam.run_pinned(res, "TraceDirect")
     res.cov["exhaustive"] = False
     res.cov["distinct_nontrivial"] = len({s["sql"] + json.dumps(s["rows"], sort_keys=True) for s in scen})
